@@ -351,7 +351,9 @@ func mutantsOf(rng *rand.Rand, idx int, orig *TxInfo, g *Gen, st *MState, chainI
 					p.Options[0] = []byte(`{"slashRatio":"100"}`)
 				}
 			}},
-			{"option-added", func(p *rctypes.TrxPayloadProposalProto) { p.Options = append(p.Options, []byte(`{"rewardPerPower":"1"}`)) }},
+			{"option-added", func(p *rctypes.TrxPayloadProposalProto) {
+				p.Options = append(p.Options, []byte(`{"rewardPerPower":"1"}`))
+			}},
 		} {
 			ed := ed
 			add("payload:"+ed.name, true, func(pm *rctypes.TrxProto) bool {
